@@ -8,6 +8,9 @@ from ref.script import OP, push_num, push_data, decode_all, check_minimal_push, 
 NAMES = dict(OP)
 NAMES['FALSE'] = OP['0']
 NAMES['TRUE'] = OP['1']
+# the historical names of the two soft-forked NOPs (aliases in Bitcoin's opcode table, like TRUE / FALSE)
+NAMES['NOP2'] = OP['CHECKLOCKTIMEVERIFY']
+NAMES['NOP3'] = OP['CHECKSEQUENCEVERIFY']
 DEC = re.compile(r'^-?(0|[1-9][0-9]*)$')
 HEX = re.compile(r'^(0x)?([0-9a-fA-F]{2})+$')
 WS = ' \t\n\r'
@@ -37,6 +40,11 @@ def split_body(s):
             depth = 0
             j = i
             while j < n:
+                if s[j] == '#':
+                    # a comment runs to the end of the line: brackets in it are text, not structure
+                    while j < n and s[j] not in '\n\r':
+                        j += 1
+                    continue
                 if s[j] == '[':
                     depth += 1
                 elif s[j] == ']':
